@@ -69,6 +69,7 @@ fn main() {
     let mut dispatch = "auto".to_string();
     let mut transcript = None;
     let mut threads = 0usize;
+    let mut deep = false;
     let mut i = 2;
     while i < args.len() {
         match args[i].as_str() {
@@ -91,6 +92,10 @@ fn main() {
             "--transcript" => {
                 transcript = Some(args[i + 1].clone());
                 i += 2;
+            }
+            "--deep" => {
+                deep = true;
+                i += 1;
             }
             "--threads" => {
                 threads = args[i + 1].parse().unwrap();
@@ -133,7 +138,9 @@ fn main() {
 
     let t0 = std::time::Instant::now();
     let n = model::selftest::run();
-    let ctx = Ctx::new(&prop, tier, &dispatch, transcript.as_deref());
+    let mut ctx = Ctx::new(&prop, tier, &dispatch, transcript.as_deref());
+    ctx.deep = deep;
+    let ctx = ctx;
     ctx.count("model_selftest_checks", n as u64);
     let run = || match prop.as_str() {
         "C01" => props::c01::run(&ctx),
